@@ -213,6 +213,39 @@ theorem dopri_total_balance (m : Model α) (b : Backend) (hp : prepare m = .ok b
   apply List.map_congr_left
   intro cr _
   simp [Summer.C02.total_rate m b hp]
+
+/-- Every row of `solvers.rk4` has the state's length when the field preserves it. -/
+theorem rk4_lengths {n : Nat} (f : List α → α → List α)
+    (hf : ∀ y t, y.length = n → (f y t).length = n) (y0 : List α) (hy0 : y0.length = n) (times : List α) :
+    ∀ r ∈ rk4 f y0 times, r.length = n := by
+  have h0 := rk4_linear (linOn_const_zero n) (f := f) (fun y t hy => ⟨hf y t hy, rfl⟩) y0 hy0 times
+  exact fun r hr => (h0 r hr).1
+
+/-- Consecutive rows of `solvers.rk4`: row `i+1` is the classical RK4 update of row `i` at `times[i]`
+with the step `times[1] − times[0]`; hence (with `rk4Step_balance`) `L` moves between them by the RK4
+combination of `h · L` of the four stage derivatives taken from row `i`. -/
+theorem rk4_rows_balance {n : Nat} {L : List α → α} (hL : LinOn n L) (f : List α → α → List α)
+    (hf : ∀ y t, y.length = n → (f y t).length = n) (y0 : List α) (hy0 : y0.length = n) (times : List α)
+    (i : Nat) (hi : i + 1 < (rk4 f y0 times).length) (hi' : i < (rk4 f y0 times).length)
+    (ht : i < (times.take (times.length - 1)).length) :
+    let h := times.getD 1 0 - times.getD 0 0
+    let y := (rk4 f y0 times)[i]
+    let t := (times.take (times.length - 1))[i]
+    let k1 := f y t
+    let k2 := f (vadd y ((vscale h k1).map (· / two))) (t + h / two)
+    let k3 := f (vadd y ((vscale h k2).map (· / two))) (t + h / two)
+    let k4 := f (vadd y (vscale h k3)) (t + h)
+    (rk4 f y0 times)[i + 1] = rk4Step f h y t ∧
+    L ((rk4 f y0 times)[i + 1]) =
+      L y + (1 / six) * (h * L k1 + two * (h * L k2) + two * (h * L k3) + h * L k4) := by
+  intro h y t k1 k2 k3 k4
+  have hlen := rk4_lengths f hf y0 hy0 times _ (List.getElem_mem hi')
+  have key : (rk4 f y0 times)[i + 1] = rk4Step f h y t := by
+    simp only [rk4_eq_scanl, h, y, t]
+    exact List.getElem_succ_scanl ..
+  refine ⟨key, ?_⟩
+  rw [key]
+  exact (rk4Step_balance hL f hf h y t hlen).2
 end Summer.Props.C02Open
 
 #print axioms Summer.Props.C02Open.eulerStep_balance
@@ -226,3 +259,5 @@ end Summer.Props.C02Open
 #print axioms Summer.Props.C02Open.euler_total_telescope
 #print axioms Summer.Props.C02Open.dopriStep_balance
 #print axioms Summer.Props.C02Open.dopri_total_balance
+#print axioms Summer.Props.C02Open.rk4_lengths
+#print axioms Summer.Props.C02Open.rk4_rows_balance
